@@ -94,6 +94,7 @@ func runC06(c *Ctx) {
 			j, _ = GenJournal(r, o)
 			val = "CHF"
 		}
+		c06EnrichTargets(c.Rng("repeat-targets", i), j)
 		text, _ := j.Text()
 		f := GenBalFlags(r, j, val, BalGenOpts{Valued: true})
 		if r.Chance(1, 2) {
@@ -251,6 +252,14 @@ func runC06(c *Ctx) {
 		}
 		add(c06PeriodJob(c, i))
 	}
+	// transactions with every shape of `@performance(...)` annotation: 0-8 targets, repeated targets, the bookings' own
+	// commodities, several spellings (stream `targets`)
+	for i := 0; i < c.N(60, 480); i++ {
+		if !want("targets", i) {
+			continue
+		}
+		add(c06TargetsJob(c, i))
+	}
 	gomax := []string{"1", "2", "16"}
 	parallelFor(len(jobs), 8, func(q int) {
 		jb := jobs[q]
@@ -295,7 +304,7 @@ func runC06(c *Ctx) {
 			code, so, se := runKnut(c.KnutBin, 30*time.Second, env, args...)
 			jb.Runs = append(jb.Runs, c06Run{Env: env, Code: code, Stdout: so, Stderr: se})
 		}
-		if (jb.Idx >= 200000 && jb.Idx < 300000 || jb.Idx >= 500000) && jb.Input["files"] == nil {
+		if (jb.Idx >= 200000 && jb.Idx < 300000 || jb.Idx >= 500000 && jb.Idx < 600000) && jb.Input["files"] == nil {
 			jb.Files = nil // large trees are not kept in memory: the case is regenerated from (seed, stream, index)
 		}
 		if os.Getenv("C06_KEEP") == "" { // C06_KEEP=1: leave the case's files in the work directory (for a replay by hand)
@@ -338,7 +347,12 @@ func runC06(c *Ctx) {
 			stream, idx = "arrival", jb.Idx-400000
 			in["files"], in["shape"] = jb.Files, jb.Input["shape"]
 		}
-		if jb.Idx >= 500000 {
+		if jb.Idx >= 600000 {
+			stream, idx = "targets", jb.Idx-600000
+			delete(in, "layout")
+			in["files"], in["shape"] = jb.Files, jb.Input["shape"]
+		}
+		if jb.Idx >= 500000 && jb.Idx < 600000 {
 			stream, idx = "period", jb.Idx-500000
 			delete(in, "layout")
 			in["shape"] = jb.Input["shape"]
@@ -430,6 +444,7 @@ var c06ModelFaults = []string{
 
 func c06FailJob(c *Ctx, i int) *c06Job {
 	r := c.Rng("failing", i)
+	ra := c.Rng("failing-targets", i) // the `@performance(...)` annotations: draws of their own
 	cmdSel := i % 8
 	nf := r.Range(2, 9) // files besides the root
 	sizes := []int{0, 1, 2, 5, 20, 60, 200, 600}
@@ -515,8 +530,16 @@ func c06FailJob(c *Ctx, i int) *c06Job {
 		if twins && k == len(files)-1 {
 			tok = k - 1
 		}
+		// a table of 12 annotations per file (transaction q takes entry q mod 12: transactions of one file that are equal in
+		// everything else are equal in their annotation as well)
+		var anns [12]string
+		for q := range anns {
+			if ra.Chance(1, 3) {
+				anns[q] = c06Ann(ra, coms, []string{com}, true)
+			}
+		}
 		for q := 0; q < f.n; q++ {
-			f.blocks = append(f.blocks, fmt.Sprintf("2020-%02d-%02d \"shop%d w%d\"\nAssets:Bank Expenses:Cat%d %d %s\n", 1+(q/28)%3, 1+q%28, tok, q%4, k, 1+(q*7+k)%90, com))
+			f.blocks = append(f.blocks, fmt.Sprintf("%s2020-%02d-%02d \"shop%d w%d\"\nAssets:Bank Expenses:Cat%d %d %s\n", anns[q%12], 1+(q/28)%3, 1+q%28, tok, q%4, k, 1+(q*7+k)%90, com))
 		}
 	}
 	files[0].blocks = append([]string{head.String()}, files[0].blocks...)
@@ -815,6 +838,7 @@ func c06RequoteAcrossFiles(files map[string]string) bool {
 // Files: 2-7 included files of different sizes (0-600 filler transactions with descriptions of their own), nested directories.
 func c06ArrivalJob(c *Ctx, i int) *c06Job {
 	r := c.Rng("arrival", i)
+	ra := c.Rng("arrival-targets", i) // the annotations of the filler transactions: draws of their own
 	nf := r.Range(2, 7)
 	sizes := []int{0, 1, 5, 20, 60, 200}
 	if c.Thorough() {
@@ -833,7 +857,11 @@ func c06ArrivalJob(c *Ctx, i int) *c06Job {
 		var b strings.Builder
 		n := Pick(r, sizes)
 		for q := 0; q < n; q++ {
-			fmt.Fprintf(&b, "2020-01-%02d \"shop%d no %d\"\nAssets:Bank Assets:Broker %d CHF\n\n", 1+q%28, k, q, q+1)
+			ann := ""
+			if ra.Chance(1, 4) {
+				ann = c06Ann(ra, []string{"CHF", "AAA", "T0", "T1", "USD"}, []string{"CHF"}, true)
+			}
+			fmt.Fprintf(&b, "%s2020-01-%02d \"shop%d no %d\"\nAssets:Bank Assets:Broker %d CHF\n\n", ann, 1+q%28, k, q, q+1)
 		}
 		switch family {
 		case "targets":
@@ -1490,17 +1518,22 @@ func c06PeriodJob(c *Ctx, i int) *c06Job {
 		fmt.Fprintf(&head, "%s open %s\n", opened, a)
 	}
 	fmt.Fprintf(&head, "%s price AAA %d CHF\n", opened, r.Range(5, 40))
+	ra := c.Rng("period-targets", i) // the `@performance(...)` annotations: draws of their own
 	tx := func(off, k, q int) string {
 		a := r.Range(1, 900)
+		ann := ""
+		if ra.Chance(1, 4) {
+			ann = c06Ann(ra, []string{"CHF", "AAA", "USD", "BBB", "aaa"}, []string{"CHF", "AAA"}, true)
+		}
 		switch r.Intn(4) {
 		case 0:
 			bank = append(bank, flow{off, -a})
-			return fmt.Sprintf("%s \"shop%d no %d\"\nAssets:Bank Expenses:Misc %d CHF\n", day(off), k, q, a)
+			return fmt.Sprintf("%s%s \"shop%d no %d\"\nAssets:Bank Expenses:Misc %d CHF\n", ann, day(off), k, q, a)
 		case 1:
-			return fmt.Sprintf("%s \"buy%d no %d\"\nEquity:Opening Assets:Broker %d AAA\n", day(off), k, q, a)
+			return fmt.Sprintf("%s%s \"buy%d no %d\"\nEquity:Opening Assets:Broker %d AAA\n", ann, day(off), k, q, a)
 		default:
 			bank = append(bank, flow{off, a})
-			return fmt.Sprintf("%s \"pay%d no %d\"\nEquity:Opening Assets:Bank %d CHF\n", day(off), k, q, a)
+			return fmt.Sprintf("%s%s \"pay%d no %d\"\nEquity:Opening Assets:Bank %d CHF\n", ann, day(off), k, q, a)
 		}
 	}
 	aaaFile := r.Intn(len(files)) // the one file that requotes AAA inside the span
@@ -1623,5 +1656,221 @@ func c06PeriodJob(c *Ctx, i int) *c06Job {
 	if total <= 12000 {
 		jb.Input["files"] = out
 	}
+	return jb
+}
+
+// ---------------------------------------------------------------- stream `targets`: every shape of `@performance(...)` annotation
+//
+// The annotation of a transaction is a LIST the user wrote: `knut print` shows it as written, `portfolio returns` splits the
+// transaction's flows evenly among its entries, accrual expansion copies it to every instalment. Anything that passes the
+// list through a map on its way (de-duplication, a set of "known" commodities, grouping by commodity) gives it the map order
+// of that process (seeded change C06-j: duplicates removed through set.Set.Slice, only when there is a duplicate). The older
+// streams wrote annotations rarely and always as a sub-sequence of the journal's commodities: never a repeated entry, never
+// more than a handful, never an order other than the generator's.
+//
+// c06TargetNames draws a list of 0-8 entries from a pool of commodities: distinct ones in random order, entries repeated
+// (next to each other, first = last, one commodity everywhere, each entry twice), the commodities the transaction itself
+// books (alone, first, last, twice), lists that use up the pool. pow2: only 0, 1, 2, 4 or 8 entries (flows divided by the
+// number of entries stay exact in float64: for multi-file inputs of `portfolio returns`, which adds in arrival order).
+func c06TargetNames(r *RNG, pool, own []string, pow2 bool) []string {
+	n := Pick(r, []int{0, 1, 1, 2, 2, 3, 3, 4, 4, 5, 6, 7, 8})
+	if pow2 {
+		n = Pick(r, []int{0, 1, 1, 2, 2, 2, 4, 4, 4, 8, 8})
+	}
+	if len(pool) == 0 {
+		pool = []string{"CHF"}
+	}
+	if len(own) == 0 {
+		own = pool[:1]
+	}
+	res := []string{}
+	perm := c06Shuffled(r, pool)
+	switch r.Intn(7) {
+	case 0: // distinct entries (as many as the pool has), random order
+		for k := 0; k < n && k < len(perm); k++ {
+			res = append(res, perm[k])
+		}
+		if pow2 {
+			for len(res) != 0 && len(res)&(len(res)-1) != 0 {
+				res = res[:len(res)-1]
+			}
+		}
+	case 1: // drawn with replacement from the whole pool
+		for k := 0; k < n; k++ {
+			res = append(res, Pick(r, pool))
+		}
+	case 2: // drawn with replacement from two or three commodities: many repetitions
+		sub := perm[:min(len(perm), r.Range(2, 3))]
+		for k := 0; k < n; k++ {
+			res = append(res, Pick(r, sub))
+		}
+	case 3: // distinct entries, then the first one again at the end / every entry twice
+		half := (n + 1) / 2
+		for k := 0; k < half && k < len(perm); k++ {
+			res = append(res, perm[k])
+		}
+		if r.Chance(1, 2) {
+			res = append(res, res...)
+		} else {
+			for len(res) < n && len(res) > 0 {
+				res = append(res, res[0])
+			}
+		}
+		if pow2 {
+			for len(res) != 0 && len(res)&(len(res)-1) != 0 {
+				res = append(res, res[0])
+			}
+		}
+	case 4: // one commodity in every place
+		x := Pick(r, append(append([]string{}, own...), pool...))
+		for k := 0; k < n; k++ {
+			res = append(res, x)
+		}
+	case 5: // the transaction's own commodities first / last / twice, the rest from the pool
+		for k := 0; k < n; k++ {
+			res = append(res, Pick(r, pool))
+		}
+		if n > 0 {
+			res[Pick(r, []int{0, n - 1, r.Intn(n)})] = Pick(r, own)
+			if n > 1 && r.Chance(1, 2) {
+				res[r.Intn(n)] = Pick(r, own)
+			}
+		}
+	default: // neighbours repeated: A,A,B,B,B,C
+		for len(res) < n {
+			x := Pick(r, pool)
+			for q := r.Range(1, 3); q > 0 && len(res) < n; q-- {
+				res = append(res, x)
+			}
+		}
+	}
+	return res
+}
+
+// c06Ann renders a drawn list as an annotation line (separators `,`, `, ` or ` , `, sometimes blanks inside the brackets).
+func c06Ann(r *RNG, pool, own []string, pow2 bool) string {
+	tg := c06TargetNames(r, pool, own, pow2)
+	sep := Pick(r, []string{",", ",", ",", ", ", " , "})
+	in := strings.Join(tg, sep)
+	if r.Chance(1, 8) {
+		in = " " + in + " "
+	}
+	return "@performance(" + in + ")\n"
+}
+
+// c06EnrichTargets gives a third of the transactions of a generated journal a drawn annotation (replacing what it had).
+func c06EnrichTargets(r *RNG, j *Journal) {
+	_, coms := journalNames(j)
+	for k := range j.Dirs {
+		d := &j.Dirs[k]
+		if d.Kind != 't' || !r.Chance(1, 3) {
+			continue
+		}
+		var own []string
+		for _, b := range d.Bookings {
+			own = append(own, b.Com)
+		}
+		tg := c06TargetNames(r, coms, own, false)
+		d.Targets = &tg
+	}
+}
+
+func c06TargetsJob(c *Ctx, i int) *c06Job {
+	r := c.Rng("targets", i)
+	day := func(off int) string {
+		return time.Date(2020, 1, 1, 0, 0, 0, 0, time.UTC).AddDate(0, 0, off).Format("2006-01-02")
+	}
+	cmdSel := i % 6
+	// the pool: 2-10 commodities, some differing only in letter case, some that no booking and no price mentions
+	all := []string{"CHF", "AAPL", "USD", "VWRL", "MSFT", "chf", "Aapl", "EUR", "X1", "ZZZ9", "BTC", "Gold"}
+	pool := c06Shuffled(r, all)[:r.Range(2, 10)]
+	booked := pool[:r.Range(1, min(len(pool), 4))]
+	multi := r.Chance(1, 3)
+	pow2 := multi && cmdSel == 4
+	nf := 0
+	if multi {
+		nf = r.Range(1, 3)
+	}
+	nt := Pick(r, []int{1, 2, 3, 5, 8, 15, 30, 60})
+	if c.Thorough() && r.Chance(1, 4) {
+		nt = Pick(r, []int{150, 400})
+	}
+	accounts := []string{"Assets:Bank", "Assets:Broker", "Assets:Broker:Sub", "Liabilities:Card", "Expenses:Fees", "Income:Dividends", "Equity:Opening", "Assets:Receivable"}
+	var head strings.Builder
+	for _, a := range accounts {
+		fmt.Fprintf(&head, "2019-12-31 open %s\n", a)
+	}
+	for _, cm := range pool {
+		if cm != "CHF" && (indexOf(booked, cm) >= 0 || r.Chance(4, 5)) {
+			fmt.Fprintf(&head, "2019-12-31 price %s %d.%s CHF\n", cm, r.Range(1, 300), Pick(r, []string{"0", "25", "5", "75"}))
+		}
+	}
+	for q := r.Intn(4); q > 0; q-- {
+		fmt.Fprintf(&head, "%s price %s %d.%s CHF\n", day(10*q+r.Intn(5)), Pick(r, pool), r.Range(1, 300), Pick(r, []string{"0", "25", "5", "75"}))
+	}
+	bodies := make([]strings.Builder, nf+1)
+	annotated := Pick(r, []int{1, 2, 2, 3, 3, 4}) // of four transactions
+	var shapes []string
+	for q := 0; q < nt; q++ {
+		k := r.Intn(nf + 1)
+		b := &bodies[k]
+		// every file books on days of its own (day = k mod (nf+1)): no same-day directives of different files
+		off := (1+r.Intn(120))*(nf+1) + k
+		nb := Pick(r, []int{1, 1, 1, 2, 3})
+		var own []string
+		var bk strings.Builder
+		for x := 0; x < nb; x++ {
+			cm := Pick(r, booked)
+			own = append(own, cm)
+			cr, dr := Pick(r, accounts), Pick(r, accounts)
+			for dr == cr {
+				dr = Pick(r, accounts)
+			}
+			fmt.Fprintf(&bk, "%s %s %d %s\n", cr, dr, r.Range(1, 500), cm)
+		}
+		if r.Chance(1, 10) {
+			s := off + r.Intn(30)
+			fmt.Fprintf(b, "@accrue %s %s %s Assets:Receivable\n", Pick(r, []string{"monthly", "weekly", "quarterly"}), day(s), day(s+Pick(r, []int{0, 6, 45, 100})))
+		}
+		if r.Intn(4) < annotated {
+			ann := c06Ann(r, pool, own, pow2)
+			b.WriteString(ann)
+			if len(shapes) < 12 {
+				shapes = append(shapes, strings.TrimSpace(ann))
+			}
+		}
+		fmt.Fprintf(b, "%s \"tx %d of file %d\"\n%s\n", day(off), q, k, bk.String())
+	}
+	files := map[string]string{}
+	var root strings.Builder
+	root.WriteString(head.String())
+	root.WriteString("\n")
+	for k := 1; k <= nf; k++ {
+		rel := path.Join(Pick(r, []string{"", "", "inc"}), fmt.Sprintf("f%d.knut", k))
+		fmt.Fprintf(&root, "include \"%s\"\n", rel)
+		files[rel] = bodies[k].String()
+	}
+	root.WriteString("\n")
+	root.WriteString(bodies[0].String())
+	files["root.knut"] = root.String()
+	jb := &c06Job{Idx: 600000 + i, Files: files, Mixed: true}
+	iv := func() string { return Pick(r, []string{"--days", "--weeks", "--months", "--quarters", "--years"}) }
+	switch cmdSel {
+	case 0, 1, 2:
+		jb.Kind, jb.Args = "print", []string{"print", "@root.knut"}
+	case 3:
+		fl := Pick(r, [][]string{{}, {"-v", "CHF"}, {"-v", "CHF", iv()}, {"-v", "CHF", "--diff", iv(), "--csv"}, {iv(), "-m", "1"}})
+		jb.Kind, jb.Args = "balance", append(append([]string{"balance", "--color=false"}, fl...), "@root.knut")
+	case 4:
+		fl := Pick(r, [][]string{{}, {iv()}, {"--weeks"}, {"--months"}, {iv(), "--last", "6"}})
+		jb.Kind, jb.Args = "returns", append(append([]string{"portfolio", "returns", "-v", "CHF"}, fl...), "@root.knut")
+	default:
+		jb.Kind, jb.Args = "transcode", []string{"transcode", "-v", "CHF", "@root.knut"}
+		if r.Chance(1, 2) {
+			jb.Kind, jb.Args = "register", []string{"register", "--color=false", "-v", "CHF", Pick(r, []string{"-d", "-a", "--months"}), "@root.knut"}
+		}
+	}
+	jb.Kind += "-targets"
+	jb.Input = map[string]any{"shape": fmt.Sprintf("%d files, %d transactions, pool %s, booked %s; first annotations: %s", nf+1, nt, strings.Join(pool, " "), strings.Join(booked, " "), strings.Join(shapes, " "))}
 	return jb
 }
